@@ -94,7 +94,21 @@ def check_inversion(rep, f, lists, lists_p, n_p):
     if lists[0] != 'accum':
         txt = show(lists)[:200]
         pad = contains(lists, lambda x: x[0] == 'bin' and x[1] == 'Mult' and (x[2] == ('list', (('list', ()),)) or x[3] == ('list', (('list', ()),))))
-        if lists[0] == 'cat' and (pad or contains(lists, lambda x: x[0] == 'call' and x[1] == S('sorted'))):
+        def over_present_keys(x):
+            # [D[k] for k in sorted(D)] / for k in D: only the keys that occur, in order - positions are ranks among them
+            if x[0] != 'comp' or len(x[1]) != 1:
+                return False
+            b_ = x[1][0][0]
+            d_ = b_[3]
+            while d_[0] == 'call' and d_[1] in (S('sorted'), S('list'), S('tuple')) and len(d_[2]) == 1:
+                d_ = d_[2][0]
+            if d_[0] == 'call' and d_[1][0] == 'attr' and d_[1][2] == 'keys' and not d_[2]:
+                d_ = d_[1][1]
+            return d_[0] == 'accum' and d_[1] == ('dict', ()) and x[2] == I(d_, b_)
+        if contains(lists, over_present_keys):
+            rep.fail('C12.R1', w, 'the list of second-side agent a sits at position a-1 (agents nobody ranks keep an empty list in place)', got=txt,
+                     want='lists indexed by agent id', construct='inverted lists compacted / padded instead of indexed by agent')
+        elif lists[0] == 'cat' and (pad or contains(lists, lambda x: x[0] == 'call' and x[1] == S('sorted'))):
             rep.fail('C12.R1', w, 'the list of second-side agent a sits at position a-1 (agents nobody ranks keep an empty list in place)', got=txt,
                      want='lists indexed by agent id', construct='inverted lists compacted / padded instead of indexed by agent')
         else:
